@@ -241,13 +241,22 @@ ChGetPost(s, e) ==
 
 -----------------------------------------------------------------------------
 \* data-path calls on an open handle
+\* C05 / C15: a write call reports at least what reached the stream.  For an appending write of a write-only handle of a
+\* sample-granular encoding on the driver's own backing store, the store grows by no more than the frames the call reports --
+\* also while I/O faults shorten transfers (the count returned must cover every byte the I/O layer accepted).
+\* (only transfer faults: after a failed seek or a wrong length answer the library may be writing somewhere else, which no property forbids)
+StreamLenOK(s, e) ==
+    (s.mode = SFM_WRITE /\ s.gran /\ s.route = "vio" /\ Has(e, "flen") /\ "flen" \in DOMAIN s /\ s.flen >= 0 /\ ~CfgRelax
+     /\ s.wpos = s.frames /\ e.st.fr < 1000000 /\ Get(e, "fk", 0) \in {0, 1, 2} /\ s.hw)
+        => e.flen - s.flen <= (e.st.wp - s.wpos) * ByteWidth(Sub(s.fmt)) * s.ch
+
 CallOK(s, cv, e) ==
     LET c == CallOf(e) o == ObsOf(e) IN
     /\ HookOK(s, e)
     /\ CASE e.op = "read" /\ e.T = "r" -> RawReadOK(s, cv, c, o)
          [] e.op = "read"  -> ReadOK(s, cv, c, o)
          [] e.op = "write" /\ e.T = "r" -> TRUE
-         [] e.op = "write" -> WriteOK(s, cv, c, o)
+         [] e.op = "write" -> WriteOK(s, cv, c, o) /\ StreamLenOK(s, e)
          [] e.op = "seek"  -> SeekOK(s, cv, c, o)
          [] e.op = "trunc" -> TruncOK([s EXCEPT !.relax = s.relax \/ s.route = "vio"], cv, c, o)
          [] e.op = "cmd"   -> CmdOK(s, cv, c, o)
@@ -288,7 +297,7 @@ NewHandle(e, cid, B, relax) ==
      B |-> B, gran |-> IsGranular(e.fmt), skb |-> (e.st.sk # 0),      \* (SF_INFO.seekable is zeroed for write handles; the handle itself knows)
      frames |-> IF ModeOf(e.mode) = SFM_WRITE THEN 0 ELSE IF relax THEN Min(e.st.fr, 1000000) ELSE e.st.fr, rpos |-> e.st.rp, wpos |-> e.st.wp, err |-> (e.st.er # 0),
      hw |-> (e.st.hw # 0), auto |-> FALSE, relax |-> relax, cid |-> cid, fid |-> e.fid, route |-> e.route, meta |-> <<>>,
-     wch |-> <<>>, rch |-> <<>>, it |-> [mode |-> "none"], nd |-> e.st.nd, nf |-> e.st.nf, fmeta |-> <<>>, nreal |-> -1, sif |-> e.st.sif, sfi |-> e.st.sfi, cl |-> e.st.cl]
+     wch |-> <<>>, rch |-> <<>>, it |-> [mode |-> "none"], nd |-> e.st.nd, nf |-> e.st.nf, fmeta |-> <<>>, nreal |-> -1, sif |-> e.st.sif, sfi |-> e.st.sfi, cl |-> e.st.cl, flen |-> -1]
 
 OpenFailedOK(e) == /\ e.gerr # 0 /\ e.gmsg > 0              \* C09: NULL, global error with a message
                    /\ Get(e, "fdleak", 0) = 0               \* C16: nothing left behind
@@ -455,7 +464,7 @@ Obs ==
                  /\ (e.op = "errq" => ErrQOK(e))
                  /\ CallOK(s, cont[s.cid], e)
                  /\ LET p == CallPost(s, cont[s.cid], e) IN
-                    /\ hs' = [hs EXCEPT ![e.h] = IF Absorbed(e) THEN [p.s EXCEPT !.relax = FALSE] ELSE p.s]
+                    /\ hs' = [hs EXCEPT ![e.h] = [(IF Absorbed(e) THEN [p.s EXCEPT !.relax = FALSE] ELSE p.s) EXCEPT !.flen = Get(e, "flen", -1)]]
                     /\ cont' = [cont EXCEPT ![s.cid] = p.cv]
                  /\ UNCHANGED <<files, ncid, closed, nclose, canon, aux>>
 
